@@ -93,3 +93,13 @@ Definition good_sys : system :=
           [mkEqn 1002 (EVar 6) (EOp (EVar 5) (EOp (EVar 0) (EOp (EVar 7) ECn))); mkEqn 1003 ECn (EVar 7)]].
 Lemma good_witness : exists r, analyse good_sys = Done r /\ r_type r = MOde /\ wf good_sys r = true /\ wf_failures good_sys r = [].
 Proof. eexists. split; [vm_compute; reflexivity|]. repeat split; vm_compute; reflexivity. Qed.
+
+(** 5. The first pass agrees on WHICH variables get typed whatever the order (AnalysisConfluenceProofs), but not on
+    their types: in [order_a] x is computed by x = 1001 (a true constant), in [order_b] by x = y + 1002
+    (a variable-based constant). *)
+Definition types_after_first_pass (s : system) : option (list vtype) :=
+  match first_pass s with Some (st, _) => Some (map iv_type (cs_ivs st)) | None => None end.
+Lemma pass1_types_witness :
+  types_after_first_pass order_a = Some [VCompTrue; VInitialised] /\
+  types_after_first_pass order_b = Some [VCompVarBased; VInitialised].
+Proof. split; vm_compute; reflexivity. Qed.
